@@ -379,6 +379,17 @@ Example C19_watch_protocol_window :
     = Some ([(RIdle, 0)], [SGone], true).
 Proof. repeat split; vm_compute; reflexivity. Qed.
 
+(* a channel that lost its receiver is re-opened by subscribe (the machine's WSubscribe: the new receiver starts at the current
+   version); the subscriber looks, waits, and a commit that comes after its look reaches it - the interleaving of seed C19-4 *)
+Example C19_watch_protocol_reopen :
+  option_map (fun w => (w_rx w, w_tx w, w_ver w))
+    (wrun (wm_init 5 1 1) [(0, WDropRx); (0, WSubscribe); (0, WRegister); (0, WCheck); (0, WCommit 7); (0, WNotify); (0, WWake); (0, WRegister); (0, WCheck)])
+    = Some ([(RIdle, 1)], [SIdle], 1) /\
+  (* a commit before the subscription is simply part of what the subscriber has seen *)
+  option_map (fun w => (w_rx w, w_ver w))
+    (wrun (wm_init 5 1 1) [(0, WDropRx); (0, WCommit 7); (0, WNotify); (0, WSubscribe); (0, WRegister); (0, WCheck)]) = Some ([(RWait false, 1)], 1).
+Proof. split; vm_compute; reflexivity. Qed.
+
 (* the executable model (code trees over the semaphore, the two Notify objects and the cell): a receiver task blocked in
    changed() is woken by a send under every script of four binary choices, sees the new value, and a second changed()
    after the sender's drop reports the closure; the run always passes *)
